@@ -181,6 +181,9 @@ PROGRAMS = {
   "with-bindings*":      "(fn [x y z probe] (with-bindings* {(var *a*) x (var *c*) y} (fn [] (probe 1))) (probe 2))",
   "bound-fn-after-exit": "(fn [x y z probe] (let [f (binding [*a* x *b* y] (bound-fn* (fn [] (probe 1))))] (probe 2) (binding [*b* z] (f) (probe 3)) (probe 4)))",
   "set!-then-leave":     "(fn [x y z probe] (binding [*a* x *b* y] (set! *b* z) (probe 1)) (probe 2))",
+  "rebind-same-value-set!": "(fn [x y z probe] (binding [*a* x *b* y] (binding [*a* x] (set! *a* z) (probe 1)) (probe 2)))",
+  "with-bindings-same-value-set!": "(fn [x y z probe] (binding [*a* x] (with-bindings* {(var *a*) x} (fn [] (set! *a* z) (probe 1))) (probe 2)))",
+  "bound-fn-on-creating-thread-set!": "(fn [x y z probe] (binding [*a* x *b* y] ((bound-fn* (fn [] (set! *b* z) (probe 1)))) (probe 2)))",
 }
 def expected(name, x, y, z):
     A0, B0, C0, P0, V0 = kw.keyword("a0"), kw.keyword("b0"), kw.keyword("c0"), kw.keyword("p0"), 0
@@ -199,6 +202,9 @@ def expected(name, x, y, z):
       "with-bindings*": [(1, w(a=x, c=y)), (2, base)],
       "bound-fn-after-exit": [(2, base), (1, w(a=x, b=y)), (3, w(b=z)), (4, base)],
       "set!-then-leave": [(1, w(a=x, b=z)), (2, base)],
+      "rebind-same-value-set!": [(1, w(a=z, b=y)), (2, w(a=x, b=y))],
+      "with-bindings-same-value-set!": [(1, w(a=z)), (2, w(a=x))],
+      "bound-fn-on-creating-thread-set!": [(1, w(a=x, b=z)), (2, w(a=x, b=y))],
     }[name]
 def run_program(name, x, y, z):
     seen = []
@@ -220,7 +226,7 @@ def history_specs(timeout):
     from ..chx.lisp import harness
     import re
     names = re.findall(r'^  "([^"]+)":', HIST, flags=re.M)
-    names = sorted(set(names), key=names.index)[:8]
+    names = sorted(set(names), key=names.index)[:11]
     out = []
     for nm in names:
         body = '''    seen, after = run_program(NAME, x, y, z)
@@ -268,6 +274,40 @@ if r2 != ev("[:root :root]"):
     bad.append(("leak-after-conveyance", r2))
 if bad:
     print("REPRODUCED: dynamic bindings across threads:", bad); sys.exit(1)
+print("HOLDS")
+'''
+
+
+REPLAY_SUCCESS = r'''
+import basilisp.main as _m
+_m.init()
+from basilisp.lang import runtime as rt, symbol as sym, map as lmap
+ns = rt.Namespace.get_or_create(sym.symbol("verif.c11"))
+SAME = {same!r}          # per Var: is the new value the very object already bound on top of its stack?
+DEPTH = {depth!r}
+vs, tops = [], []
+for i, d in enumerate(DEPTH):
+    v = rt.Var(ns, sym.symbol(f"ok_{{i}}"), dynamic=True)
+    v.bind_root(("root", i))
+    top = None
+    for j in range(d):
+        top = ("prior", i, j)
+        rt.push_thread_bindings(lmap.map({{v: top}}))
+    vs.append(v); tops.append(top)
+news = [tops[i] if (SAME[i] and DEPTH[i] > 0) else ("new", i) for i in range(len(vs))]
+depth_before = [len(v._tl.bindings) for v in vs]
+rt.push_thread_bindings(lmap.map(dict(zip(vs, news))))
+depth_after = [len(v._tl.bindings) for v in vs]
+bad = [i for i in range(len(vs)) if depth_after[i] != depth_before[i] + 1]
+for v in vs:
+    v.set_value("set-inside")
+rt.pop_thread_bindings()
+after = [v.value for v in vs]
+want = [tops[i] if DEPTH[i] > 0 else ("root", i) for i in range(len(vs))]
+if bad or after != want:
+    print("REPRODUCED: a successful push did not add exactly one binding per named Var (Vars", bad, "); after set! inside and pop the Vars read",
+          after, "instead of", want)
+    sys.exit(1)
 print("HOLDS")
 '''
 
@@ -323,6 +363,16 @@ def run(rep, tier, seed):
             body = REPLAY.format(order=order, dyn=dyn, rej=rej)
             path = env.write_replay(rep.prop, name, body)
             ok, line = env.replay_reproduces(path)
+            if not ok and all(dyn) and not any(rej):
+                # the push succeeds in the model: replay the success path (incl. re-binding the identical object)
+                depth, same = [], []
+                for i in range(n):
+                    ks = sorted(k for k in cex if k.startswith(f"var{i}_prior"))
+                    depth.append(len(ks))
+                    same.append(bool(ks) and cex.get(f"new{i}") == cex.get(ks[-1]))
+                path = env.write_replay(rep.prop, name + "_success", REPLAY_SUCCESS.format(same=same, depth=depth))
+                ok, line = env.replay_reproduces(path)
+                res.witness["new_value_is_current_binding"] = same
             res.reproduced = ok
             if ok:
                 res.verdict, res.replay, res.detail = REFUTED, path, line[:300]
